@@ -446,3 +446,310 @@ def replay_cable_wire_name(rp):
             rp["width"], c.is_array, rp["base"], got)
     finally:
         shutil.rmtree(d, ignore_errors=True)
+
+
+def port_ref_job(width, tier, timeout_ms=120000):
+    """ComposeEdif._output_port_ref_ / _output_inner_pin_: for a pin of an array port the text written is
+    `member <port> x` with x the POSITION of that pin in the port (what the reader's parse_member indexes
+    with), whatever the other pins of the port are joined to (same net, other nets, nothing)."""
+    from spydrnet.composers.edif.composer import ComposeEdif
+    from vf.e1.ops import to_str
+    from vf.e1.vals import to_atom
+    from vf.e1.interp import live
+    t0 = time.time()
+    out = []
+    for which in ("_output_port_ref_", "_output_inner_pin_"):
+        name = "C03/ComposeEdif.%s{width=%d}" % (which, width)
+        outer = which == "_output_inner_pin_"
+        u = Universe(dict(Netlist=0, Library=0, Definition=1, Port=1, Cable=1, Wire=2, Instance=1 if outer else 0,
+                          InnerPin=width, OuterPin=width if outer else 0),
+                     {}, max(2, width), keys=(".NAME", "EDIF.identifier"), atoms=("n", "N_1"))
+        shape = {("Definition", 0, "_cables"): [0], ("Cable", 0, "_wires"): [0, 1],
+                 ("Definition", 0, "_ports"): [0], ("Port", 0, "_pins"): list(range(width))}
+        pre = Heap.symbolic(u).apply_shape(shape)
+        heap = pre.copy()
+        ctx = Ctx(heap, M.REAL)
+        M.listeners_none(ctx)
+        fr = Frame(None, True, {})
+        events = []
+        ctx.stubs[ComposeEdif._lisp_increment_] = lambda c, f, a, k: None
+        ctx.stubs[ComposeEdif._lisp_decrement_] = lambda c, f, a, k: None
+        ctx.stubs[ComposeEdif._new_line_] = lambda c, f, a, k: None
+        ctx.stubs[ComposeEdif._get_edif_name_] = lambda c, f, a, k: "P"
+        out_obj = Local(_Recorder, {})
+        ctx.natives[_Recorder] = None
+        selfv = Local(ComposeEdif, {"_output_": out_obj, "_lisp_depth_": 0})
+        _Recorder.write = lambda self, text: None
+        ctx.stubs[_Recorder.write] = lambda c, f, args, kwargs: events.append((live(c, f), args[1]))
+        ctx.local_classes = (_Recorder,)
+        ctx.interp_prefixes = ("spydrnet", "vf.e1.edif_jobs")
+        pos = z3.Int("pin_position")
+        A = pre.type_constraints() + spec.inv_all(pre) + [GE(pos, 0), LT(pos, width)]
+        port = Ref(u.gid("Port", 0), ("Port",))
+        try:
+            if outer:
+                opos = z3.Int("outer_pin")
+                pin = Ref(ADD(u.base["OuterPin"], opos), ("OuterPin",))
+                A += [GE(opos, 0), LT(opos, width)]
+                # the pin written is one of a net's pins: it is joined to a wire, belongs to the instance,
+                # and mirrors the inner pin at `pos`
+                for o in range(width):
+                    A.append(IMPLIES(EQ(opos, o), AND(NE(pre.sc[("OuterPin", "_wire")][o], NONE_ID),
+                                                      EQ(pre.sc[("OuterPin", "_inner_pin")][o],
+                                                         ADD(u.base["InnerPin"], pos)))))
+                call_function(ctx, fr, ComposeEdif._output_inner_pin_, [selfv, pin], owner=ComposeEdif)
+            else:
+                pin = Ref(ADD(u.base["InnerPin"], pos), ("InnerPin",))
+                for p in range(width):
+                    A.append(IMPLIES(EQ(pos, p), NE(pre.sc[("InnerPin", "_wire")][p], NONE_ID)))
+                call_function(ctx, fr, ComposeEdif._output_port_ref_, [selfv, port, "c", pin], owner=ComposeEdif)
+        except Unsupported as e:
+            out.append(result(name, INCONCLUSIVE, "E1/symheap", detail="Unsupported: %s" % e, wall_s=time.time() - t0))
+            continue
+        A = [B(a) for a in A if a is not True]
+        is_array = OR(width > 1, NOT(pre.sc[("Port", "_is_scalar")][0]))
+        member = OR(*[AND(g, EQ(to_atom(v).t, ATOMS.intern("member "))) for g, v in events])
+        want_space = " " if outer else ""
+        idx_written = OR(*[AND(g, EQ(to_atom(v).t, to_atom(
+            ops_concat(ctx, fr, want_space, to_str(ctx, fr, SInt(pos)))).t)) for g, v in events])
+        wrong_idx = OR(*[AND(g, EQ(to_atom(v).t, ATOMS.intern(want_space + str(k))), NE(pos, k))
+                         for g, v in events for k in range(width)])
+        goals = {
+            "member-form-exactly-for-an-array-port": NOT(EQ(member, is_array)),
+            "member-index-is-the-pin-position": AND(is_array, OR(NOT(idx_written), wrong_idx)),
+        }
+        funcs = sorted(fn_ident(f) for f in ctx.funcs_seen)
+        bounds = dict(u.describe(), width=width, wires="2 (every pin joined to either or to nothing)")
+        tw = {"pre_sat": M.check(A, True, 30000)[0], "returns": M.check(A, NOT(ctx.exc), 30000)[0]}
+        if tw["pre_sat"] != "sat" or tw["returns"] != "sat":
+            out.append(result(name, VACUOUS, "E1/symheap", twins=tw, bounds=bounds, detail="reachability twin failed: %s" % tw))
+            continue
+        for g, goal in goals.items():
+            oname = name + "/" + g
+            st, dt, mdl = M.check(A + [B(NOT(ctx.bound)), B(NOT(ctx.exc))], goal, timeout_ms)
+            if st == "unsat":
+                out.append(result(oname, DISCHARGED, "E1/symheap", queries=1, solver_s=dt, twins=tw, bounds=bounds,
+                                  functions=funcs, detail="unsat", wall_s=time.time() - t0, paths=1))
+            elif st != "sat":
+                out.append(result(oname, INCONCLUSIVE, "E1/symheap", detail="solver: %s" % st, bounds=bounds))
+            else:
+                wires = []
+                for p in range(width):
+                    if outer:
+                        # the outer pin mirroring inner pin p (if any) and its wire
+                        w = None
+                        for o in range(width):
+                            if replay.mval(mdl, pre.sc[("OuterPin", "_inner_pin")][o]) == u.gid("InnerPin", p) and \
+                                    replay.mval(mdl, pre.sc[("OuterPin", "_instance")][o]) == u.gid("Instance", 0):
+                                w = replay.mval(mdl, pre.sc[("OuterPin", "_wire")][o])
+                    else:
+                        w = replay.mval(mdl, pre.sc[("InnerPin", "_wire")][p])
+                    wires.append(None if w in (None, NONE_ID) else int(w) - u.base["Wire"])
+                rp = {"engine": "E1", "property": "C03", "obligation": oname, "kind": "port_ref", "width": width,
+                      "outer": outer, "is_scalar": bool(replay.mval(mdl, pre.sc[("Port", "_is_scalar")][0])),
+                      "pos": replay.mval(mdl, pos), "wires": wires}
+                try:
+                    viol, txt = replay_port_ref(rp)
+                except Exception:
+                    viol, txt = False, "replay crashed: " + traceback.format_exc()[-400:]
+                out.append(result(oname, VIOLATED if viol else ERROR, "E1/symheap", queries=1, solver_s=dt, twins=tw,
+                                  bounds=bounds, functions=funcs, replay=rp if viol else None,
+                                  detail=txt if viol else "counterexample did not reproduce: " + txt,
+                                  wall_s=time.time() - t0))
+    return out
+
+
+def ops_concat(ctx, fr, a, b):
+    from vf.e1.ops import concat_strs
+    return concat_strs(ctx, fr, [a, b]) if a else b
+
+
+def replay_port_ref(rp):
+    """the real writer on a real port whose pins are joined as in the counterexample; the index it writes is
+    then resolved the way the reader does (port.pins[x]) and compared with the pin that was meant"""
+    import io
+    import spydrnet as sdn
+    from spydrnet.composers.edif.composer import ComposeEdif
+    n = sdn.Netlist(name="d")
+    lib = n.create_library("work")
+    leaf = lib.create_definition("leaf")
+    port = leaf.create_port("p", is_scalar=rp["is_scalar"] if rp["width"] == 1 else False)
+    port.create_pins(rp["width"])
+    port["EDIF.identifier"] = "p"
+    top = lib.create_definition("top")
+    holder = top if rp["outer"] else leaf
+    cab = holder.create_cable("c")
+    cab.create_wires(2)
+    inst = top.create_child("u", reference=leaf) if rp["outer"] else None
+    pins = [inst.pins[p] for p in port.pins] if rp["outer"] else list(port.pins)
+    for p, w in zip(pins, rp["wires"]):
+        if w is not None:
+            cab.wires[w].connect_pin(p)
+    c = ComposeEdif()
+    c._output_ = io.StringIO()
+    c._lisp_depth_ = 0
+    pin = pins[rp["pos"]]
+    if rp["outer"]:
+        c._output_inner_pin_(pin)
+    else:
+        c._output_port_ref_(port, "c", pin)
+    text = c._output_.getvalue()
+    import re
+    m = re.search(r"\(member\s+\S+\s+(\d+)\)", text)
+    is_array = port.is_array
+    if is_array != bool(m):
+        return True, "port is_array=%s but the writer wrote %r" % (is_array, text.strip())
+    if m and int(m.group(1)) != rp["pos"]:
+        return True, "pin %d of %s (pins joined to wires %s) was written as %r: the reader joins pin %s instead" % (
+            rp["pos"], "the instance's port" if rp["outer"] else "the port", rp["wires"], text.strip(), m.group(1))
+    return False, "writer wrote %r for pin %d" % (text.strip(), rp["pos"])
+
+
+class _Tokens:
+    """tokenizer stub: next() hands out the job's token sequence"""
+
+
+def design_job(tier, timeout_ms=120000):
+    """EdifParser.parse_design on a symbolic two-library netlist: `(design d (cellRef C (libraryRef L)))` makes the
+    top instance an instance of THE cell whose EDIF identifier is C in the library whose identifier is L -- the
+    display names (rename strings) play no part, whatever they are."""
+    from spydrnet.parsers.edif.parser import EdifParser
+    from spydrnet.ir.first_class_element import FirstClassElement
+    from vf.e1.interp import live
+    t0 = time.time()
+    name = "C05/EdifParser.parse_design"
+    u = Universe(dict(Netlist=1, Library=2, Definition=3, Port=0, Cable=0, Wire=0, Instance=0, InnerPin=0, OuterPin=0),
+                 dict(Instance=1), 3, keys=(".NAME", "EDIF.identifier"), atoms=("top", "leaf", "work", "prims"))
+    shape = {("Netlist", 0, "_libraries"): [0, 1], ("Library", 0, "_definitions"): [0, 1],
+             ("Library", 1, "_definitions"): [2]}
+    pre = Heap.symbolic(u).apply_shape(shape)
+    heap = pre.copy()
+    ctx = Ctx(heap, M.REAL)
+    M.listeners_none(ctx)
+    fr = Frame(None, True, {})
+    kn, ki = u.keys.index(".NAME"), u.keys.index("EDIF.identifier")
+    A = pre.type_constraints() + spec.inv_all(pre)
+    D, Lb = pre.data["Definition"], pre.data["Library"]
+    # a legal file: every cell / library carries an identifier, unique within its scope
+    A += [D[i][ki][0] for i in range(3)] + [Lb[i][ki][0] for i in range(2)]
+    A += [NE(D[0][ki][1], D[1][ki][1]), NE(Lb[0][ki][1], Lb[1][ki][1])]
+    # ... and a display name (the rename string, else the identifier: set_attribute), unique within its scope too
+    A += [D[i][kn][0] for i in range(3)] + [Lb[i][kn][0] for i in range(2)]
+    A += [NE(D[0][kn][1], D[1][kn][1]), NE(Lb[0][kn][1], Lb[1][kn][1])]
+    want_def = SAtom(z3.Int("cellRef"), u.atom_ids)
+    want_lib = SAtom(z3.Int("libraryRef"), u.atom_ids)
+    A += [OR(*[EQ(want_def.t, a) for a in u.atom_ids]), OR(*[EQ(want_lib.t, a) for a in u.atom_ids])]
+    for nm in ("prefix_append", "prefix_pop", "expect", "set_attribute", "skip_until_next_construct", "parse_rename"):
+        ctx.stubs[getattr(EdifParser, nm)] = lambda c, f, a, k: None
+    ctx.stubs[EdifParser.parse_identifier] = lambda c, f, a, k: "d"
+    renamed = z3.Bool("design_name_is_a_rename")
+    from vf.e1.sym import mkbool as _mkb
+    ctx.stubs[EdifParser.begin_construct] = lambda c, f, a, k: _mkb(renamed)
+    # metadata_prefix bookkeeping (a python list kept in the instance's data) is token glue: not modelled
+    real_setitem = FirstClassElement.__setitem__
+    ctx.stubs[real_setitem] = lambda c, f, a, k: None
+    calls = {"n": z3.IntVal(0)}
+
+    def next_token(c, f, a, k):
+        g = live(c, f)
+        n = calls["n"]
+        # with a rename form the closing parenthesis is consumed by one more next()
+        off = ITE(renamed, 1, 0)
+        tok = SAtom(ITE(EQ(n, ADD(off, 2)), want_def.t, ITE(EQ(n, ADD(off, 5)), want_lib.t, ATOMS.intern("("))),
+                    tuple(sorted(set(u.atom_ids) | {ATOMS.intern("(")})))
+        calls["n"] = ITE(g, ADD(n, 1), n)
+        return tok
+    tok = Local(_Tokens, {})
+    _Tokens.next = lambda self: None
+    ctx.stubs[_Tokens.next] = next_token
+    ctx.natives[_Tokens] = None
+    ctx.local_classes = (_Tokens,)
+    ctx.interp_prefixes = ("spydrnet", "vf.e1.edif_jobs")
+    netl = Ref(u.gid("Netlist", 0), ("Netlist",))
+    none = lambda: Ref(NONE_ID, ("Netlist", "Instance"))
+    selfv = Local(EdifParser, {"elements": SList(1, [Ref(netl.t, ("Netlist", "Instance")), none(), none()]),
+                               "tokenizer": tok})
+    try:
+        call_function(ctx, fr, EdifParser.parse_design, [selfv], owner=EdifParser)
+    except Unsupported as e:
+        return [result(name, INCONCLUSIVE, "E1/symheap", detail="Unsupported: %s" % e, wall_s=time.time() - t0)]
+    A = [B(a) for a in A if a is not True]
+    top = heap.sc[("Netlist", "_top_instance")][0]
+    inst0 = u.gid("Instance", 0)
+    ref = heap.sc[("Instance", "_reference")][0]
+    # the declared cell: definition d of library l with the wanted identifiers
+    owner_lib = {0: 0, 1: 0, 2: 1}
+    declared = OR(*[AND(EQ(D[d][ki][1], want_def.t), EQ(Lb[l][ki][1], want_lib.t)) for d, l in owner_lib.items()])
+    right = OR(*[AND(EQ(ref, u.gid("Definition", d)), EQ(D[d][ki][1], want_def.t), EQ(Lb[l][ki][1], want_lib.t))
+                 for d, l in owner_lib.items()])
+    goals = {
+        "top-is-an-instance-of-the-cell-with-that-identifier-in-that-library":
+            ([B(declared), B(NOT(ctx.exc))], NOT(AND(EQ(top, inst0), right))),
+        "declared-design-is-accepted": ([B(declared)], ctx.exc),
+    }
+    funcs = sorted(fn_ident(f) for f in ctx.funcs_seen)
+    bounds = dict(u.describe(), libraries=2, cells="2 + 1", names="symbolic, independent of the identifiers",
+                  stubs=["prefix_append/prefix_pop/expect/set_attribute/parse_rename/parse_identifier/skip_until_next_construct/"
+                         "FirstClassElement.__setitem__ (metadata bookkeeping): no-ops",
+                         "tokenizer.next: the token sequence ( cellRef C ( libraryRef L", "begin_construct: symbolic"])
+    tw = {"pre_sat": M.check(A, True, 60000)[0], "returns": M.check(A + [B(declared)], NOT(ctx.exc), 60000)[0]}
+    if any(v != "sat" for v in tw.values()):
+        return [result(name, VACUOUS, "E1/symheap", twins=tw, bounds=bounds, detail="reachability twin failed: %s" % tw)]
+    out = []
+    for g, (extra, goal) in goals.items():
+        oname = name + "/" + g
+        st, dt, mdl = M.check(A + [B(NOT(ctx.bound))] + extra, goal, timeout_ms)
+        if st == "unsat":
+            out.append(result(oname, DISCHARGED, "E1/symheap", queries=1, solver_s=dt, twins=tw, bounds=bounds,
+                              functions=funcs, detail="unsat", wall_s=time.time() - t0, paths=1))
+        elif st != "sat":
+            out.append(result(oname, INCONCLUSIVE, "E1/symheap", detail="solver: %s" % st, bounds=bounds))
+        else:
+            val = lambda pair: (ATOMS.vals[replay.mval(mdl, pair[1])] if replay.mval(mdl, pair[0]) else None)
+            rp = {"engine": "E1", "property": "C05", "obligation": oname, "kind": "design",
+                  "cells": [[val(D[d][ki]), val(D[d][kn])] for d in range(3)],
+                  "libs": [[val(Lb[l][ki]), val(Lb[l][kn])] for l in range(2)],
+                  "cellRef": ATOMS.vals[replay.mval(mdl, want_def.t)], "libraryRef": ATOMS.vals[replay.mval(mdl, want_lib.t)],
+                  "renamed": bool(replay.mval(mdl, renamed))}
+            try:
+                viol, txt = replay_design(rp)
+            except Exception:
+                viol, txt = False, "replay crashed: " + traceback.format_exc()[-400:]
+            out.append(result(oname, VIOLATED if viol else ERROR, "E1/symheap", queries=1, solver_s=dt, twins=tw,
+                              bounds=bounds, functions=funcs, replay=rp if viol else None,
+                              detail=txt if viol else "counterexample did not reproduce: " + txt,
+                              wall_s=time.time() - t0))
+    return out
+
+
+def replay_design(rp):
+    """a real EDIF file with those cells (identifier + rename string) and that design statement"""
+    import os
+    import shutil
+    import tempfile
+    import spydrnet as sdn
+    nm = lambda ident, name: ident if name in (None, ident) else '(rename %s "%s")' % (ident, name)
+    cell = lambda c: "(cell %s (celltype GENERIC) (view netlist (viewtype NETLIST) (interface)))" % nm(*c)
+    lib = lambda l, cells: "(library %s (edifLevel 0) (technology (numberDefinition)) %s)" % (nm(*l), " ".join(cells))
+    c, l = rp["cells"], rp["libs"]
+    text = ("(edif d (edifVersion 2 0 0) (edifLevel 0) (keywordMap (keywordLevel 0)) (status) %s %s "
+            "(design %s (cellRef %s (libraryRef %s))))" % (
+                lib(l[0], [cell(c[0]), cell(c[1])]), lib(l[1], [cell(c[2])]),
+                '(rename d "D")' if rp["renamed"] else "d", rp["cellRef"], rp["libraryRef"]))
+    d = tempfile.mkdtemp(prefix="vf_c05_")
+    try:
+        p = os.path.join(d, "x.edf")
+        open(p, "w").write(text)
+        try:
+            n = sdn.parse(p)
+        except BaseException as e:
+            return True, "design (cellRef %s (libraryRef %s)) over cells %s / libraries %s: rejected (%s: %s)" % (
+                rp["cellRef"], rp["libraryRef"], c, l, type(e).__name__, str(e)[:100])
+        top = n.top_instance
+        got = (top.reference["EDIF.identifier"], top.reference.library["EDIF.identifier"]) if top is not None and \
+            top.reference is not None else None
+        bad = got != (rp["cellRef"], rp["libraryRef"])
+        return bad, "design (cellRef %s (libraryRef %s)) over cells [identifier, name] %s in libraries %s: top is an instance of %s" % (
+            rp["cellRef"], rp["libraryRef"], c, l, got)
+    finally:
+        shutil.rmtree(d, ignore_errors=True)
